@@ -642,7 +642,7 @@ def run(ctx):
 
     # ---- 3a. search X runs in the background (gcc + CPU) while Lean builds / audits
     exec_rng = random.Random(ctx.rng.getrandbits(64))
-    jobs = min(16, os.cpu_count() or 8)
+    jobs = max(2, min(8, (os.cpu_count() or 8) // 2))
     bg = ThreadPoolExecutor(max_workers=1)
     t0 = time.time()
     exec_fut = bg.submit(lambda: (c14_exec.search(exo, exec_rng, cases_per_instr=ctx.scale(2, 4),
